@@ -66,6 +66,7 @@ int main(int argc, char** argv) {
   std::string mode = a.str("mode", "dfs");
   long from = a.num("from", 0), to = a.num("to", 1L << 40), cap = a.num("cap", 100); int bound = (int)a.num("bound", 2);
   unsigned seed = (unsigned)a.num("seed", 1);
+  bool allStopSites = a.num("stopsites", 1) != 0;
   long execs = 0, steps = 0, lost = 0;
   std::set<std::string> distinct;
 
@@ -86,7 +87,11 @@ int main(int argc, char** argv) {
       auto finished = [&] { return count_res(w, cons == 2 ? 'c' : 'r') > 0; };
       int drvNexts = sc.value("drvNexts", 1);
       {
-        vrt::Ctl c; c.accept = {"stream.", "stop.", "spin_wait"};
+        vrt::Ctl c;
+        // quick tier: of inplace_stop_source's own schedule points only those around the execution / deregistration of a callback
+        // (its internal interleavings are the subject of C03); thorough: all of them
+        if (allStopSites) c.accept = {"stream.", "stop.", "spin_wait"};
+        else c.accept = {"stream.", "stop.q2", "stop.q3", "stop.d12", "spin_wait"};
         // thread 1: the consumer
         c.spawn(1, [&] {
           UNIFEX_VERIF_YIELD("stream.h.op");
@@ -94,11 +99,13 @@ int main(int argc, char** argv) {
           size_t issued = 0; char last = 'v';
           for (int i = 0; i < drvNexts && last == 'v'; ++i) {
             ++issued; h->drvNext();
+            UNIFEX_VERIF_YIELD("stream.h.op");      // (a step that leaves a library spin must not end in a harness spin: the controller would not count it as progress)
             while (count_res(w, 'n') < issued) ::unifex_verif::call_hook("stream.h.wait", 1);
             for (auto& r : w.res) if (r.kind == 'n') last = r.ch;
             UNIFEX_VERIF_YIELD("stream.h.op");
           }
           h->drvCleanup();
+          UNIFEX_VERIF_YIELD("stream.h.op");
           while (!finished()) ::unifex_verif::call_hook("stream.h.wait", 1);
         });
         // threads 2..: one completer per harness source (its next() and, if deferred, its cleanup())
@@ -112,6 +119,7 @@ int main(int argc, char** argv) {
               UNIFEX_VERIF_YIELD("stream.h.op");
               if (sc2->completeNext) { auto f = sc2->completeNext; f(); }
               else if (sc2->completeCleanup) { auto f = sc2->completeCleanup; f(); }
+              UNIFEX_VERIF_YIELD("stream.h.op");
             }
           });
         }
